@@ -78,7 +78,8 @@ PP_UF = [z3.Function('PP%d' % i, z3.RealSort(), z3.IntSort(), z3.RealSort()) for
 def mk_pp(i):
     def pp(traces):
         f = traces.snapshot()
-        return symnp.ndarray.fresh(traces.shape, lambda idx: SFloat(PP_UF[i](core.to_float(f(idx)).v, zi(idx[1])), 'float32'), 'float32')
+        dt = traces.dtype if traces.dtype.kind == 'f' else _rnp.dtype('float32')      # the preprocess keeps the floating-point type of its input
+        return symnp.ndarray.fresh(traces.shape, lambda idx: SFloat(PP_UF[i](core.to_float(f(idx)).v, zi(idx[1])), dt), dt)
     pp.__name__ = 'pp%d' % i
     return pp
 
@@ -166,7 +167,8 @@ def update_stub(expected):
         loops.oblige('update: traces and data have the same number of rows', 'requires', zi(ln) == zi(data.shape[0]))
         i = z3.Int('u!i%d' % G.updates); c = z3.Int('u!c%d' % G.updates)
         rng = [i >= 0, i < zi(ln)]
-        samples_exp, data_exp, ncols, W = expected
+        samples_exp, data_exp, ncols, W = expected[:4]; sdt = expected[4] if len(expected) > 4 else None
+        if sdt is not None: loops.oblige('update: the batch is handed over in the dtype the container delivers (no cast by the analysis: binning distinguishers depend on the sample values)', 'requires', z3.BoolVal(str(traces.dtype) == sdt), dict(text='batch dtype %s, container samples %s' % (traces.dtype, sdt)))
         goal_s = z3.And(*[core.scalar_eq(traces.at(SInt(i), cc), samples_exp(zi(P0) + i, cc)) for cc in range(ncols)]) if (traces.ndim == 2 and traces.shape[1] == ncols) else z3.BoolVal(False)
         goal_d = z3.And(*[core.scalar_eq(data.at(SInt(i), ww), data_exp(zi(P0) + i, ww)) for ww in range(W)]) if (data.ndim == 2 and data.shape[1] == W) else z3.BoolVal(False)
         loops.oblige('update: the batch is exactly the next rows of the container, in order (frame, then preprocesses)', 'requires', z3.Implies(z3.And(*rng), goal_s), dict(text='traces[i,:] == pp(S[P+i, frame]) for the P rows already fed'))
@@ -207,7 +209,8 @@ def run_loop(u, rep, klass_name, conv, nruns, timeout, generic_start=False):
             if conv: conv_havoc(a, G, {}, 0, P0, step)
         for run in range(nruns):
             n = core.sym_int('n%d' % run, 1)
-            ths = u.E.TraceHeaderSet('T%d' % run, n, 40, 'float32', {'plaintext': (16, 'uint8')})
+            sdt = 'float64' if generic_start else 'float32'      # the analysis precision is float32: a container of float64 samples shows a cast
+            ths = u.E.TraceHeaderSet('T%d' % run, n, 40, sdt, {'plaintext': (16, 'uint8')})
             cont = u.cont.Container(ths, frame=frame, preprocesses=[mk_pp(0)])
             base = G.P
             samples_exp = lambda r, c, ths=ths, base=base: SFloat(PP_UF[0](ths.S(r - zi(base), z3.IntVal(2 + c)), z3.IntVal(c)), 'float32')
@@ -231,7 +234,7 @@ def run_loop(u, rep, klass_name, conv, nruns, timeout, generic_start=False):
                 loops.oblige('run loop: after batch k exactly rows [0, start_{k+1}) have been fed', 'invariant-step', z3.And(zi(G.P) == zi(Pn), zi(a.processed_traces) == zi(Pn)), dict(text='P_{k+1} == min((k+1)*batch, n) + rows of earlier runs'))
                 if conv: conv_preserve(a, G, state, k, step)
             lc = loops.LoopCut('run', count, element, establish, havoc, preserve)
-            L.set_task(stubs={DB + '::DistinguisherMixin.update': update_stub((samples_exp, data_exp, 6, 4)), DB + '::DistinguisherMixin.compute': compute_stub},
+            L.set_task(stubs={DB + '::DistinguisherMixin.update': update_stub((samples_exp, data_exp, 6, 4, sdt)), DB + '::DistinguisherMixin.compute': compute_stub},
                        loops={AMOD + '::_BaseAnalysis.run#0': lc})
             a.run(cont)
             info.append((n, lc.entered))
